@@ -19,9 +19,17 @@ RULE = ("cases = 1-5 epoch definitions side by side, identifiers drawn from 28 a
         "runs through the whole application BeginBlock/EndBlock/Commit with the epochs in the genesis file; in 1 direct case in 3 "
         "the middle one of the three recording receivers panics on a chosen (identifier, epoch 1-4, AfterEpochEnd | "
         "BeforeEpochStart) call, once or twice; "
+        "MODULE (RE-)INITIALISATION: 2 direct cases in 5 start the chain through InitGenesis (the opening definitions as one genesis "
+        "state via epochs.InitGenesis / the registered AppModule.InitGenesis, or the module's DefaultGenesis via "
+        "ModuleManager.RunMigrations with a version map without x/epochs) and 2 cases in 5 re-run InitGenesis in the middle of the "
+        "chain on the live store (1 step in 5; via fn / module / migrate; genesis = the default one, the opening one again, or 1-4 "
+        "arbitrary definitions half of which re-use a stored — possibly running — identifier, in any order, 1 in 6 with a "
+        "duplicated identifier, 1 in 8 empty, malformed definitions as above); "
         "non-trivial = some identifier advanced at least twice (an AfterEpochEnd/BeforeEpochStart pair was delivered) and some "
         "block left a started epoch unchanged; distinct = distinct input")
 ASSUMPTIONS = [
+    "module re-initialisation is InitGenesis reached through epochs.InitGenesis, AppModule.InitGenesis or RunMigrations (the SDK's "
+    "behaviour for a module missing in the version map is exercised, not modelled); DeleteEpochInfo is not an op",
     "epoch numbers and heights do not wrap (uint64 / int64); time.Time arithmetic does not saturate (years 1..2262)",
     "the property predicate is evaluated on traces whose definitions are well formed (not started => epoch 0; started => "
     "StartTime <= CurrentEpochStartTime <= now) and whose block times do not decrease; all other traces are still compared "
@@ -62,6 +70,11 @@ def _ranks(rec):
     for op in rec["input"]["ops"]:
         if op["op"] == "add":
             names.add(op.get("ident", ""))
+        for g in op.get("gen") or []:
+            names.add(g.get("ident", ""))
+    for o in rec["obs"]["ops"]:
+        for g in o.get("gen") or []:
+            names.add(g.get("ident", ""))
     for e in rec["obs"]["init"] or []:
         names.add(e["ident"])
         names.add(e.get("key", e["ident"]))
@@ -95,21 +108,32 @@ def to_coq_case(rec):
     return _with_lets(_to_coq_case(rec))
 
 
+def _args(op, rk):
+    ident = op.get("ident", "")
+    st = op.get("start")
+    cs = op.get("cur_start")
+    return ("(Build_add_args %d %s %s %s %s %s %s %s)" % (
+        rk.get(ident, 0), "true" if ident == "" else "false",
+        "None" if st is None else "(Some %s)" % z(st), z(op.get("dur", 0)), z(op.get("cur", 0)),
+        z(ZERO_TIME if cs is None else cs), z(op.get("height", 0)), "true" if op.get("started") else "false"))
+
+
+def _gen_of(op, o):
+    """the genesis state an init op ran with (via migrate: the module's default genesis as the driver read it)"""
+    return (o.get("gen") if op.get("via") == "migrate" else op.get("gen")) or []
+
+
 def _to_coq_case(rec):
     rk = _ranks(rec)
     items = []
     for op, o in _pairs(rec):
         if op["op"] == "block":
             t = "Block %s %s" % (z(o["t"]), z(o["h"]))
+        elif op["op"] == "init":
+            t = "Init %s %s %s [%s]" % ("false" if op.get("via") == "fn" else "true", z(o["t"]), z(o["h"]),
+                                       "; ".join(_args(g, rk) for g in _gen_of(op, o)))
         else:
-            ident = op.get("ident", "")
-            st = op.get("start")
-            cs = op.get("cur_start")
-            a = ("(Build_add_args %d %s %s %s %s %s %s %s)" % (
-                rk.get(ident, 0), "true" if ident == "" else "false",
-                "None" if st is None else "(Some %s)" % z(st), z(op.get("dur", 0)), z(op.get("cur", 0)),
-                z(ZERO_TIME if cs is None else cs), z(op.get("height", 0)), "true" if op.get("started") else "false"))
-            t = "Add %s %s %s" % (z(o["t"]), z(o["h"]), a)
+            t = "Add %s %s %s" % (z(o["t"]), z(o["h"]), _args(op, rk))
         ob = "(Build_obs %s [%s] [%s] [%s])" % (
             "true" if o["ok"] else "false", "; ".join(_info(e, rk) for e in o["infos"] or []),
             "; ".join(str(rk[e.get("key", e["ident"])]) for e in o["infos"] or []),
@@ -133,6 +157,28 @@ def _walk(rec):
             yield ("add-ok" if o["ok"] else "add-rejected", None)
             if op.get("started"):
                 yield ("add-running-epoch", None)
+        elif op["op"] == "init":
+            gen = _gen_of(op, o)
+            ids = [g.get("ident", "") for g in gen]
+            yield ("init-via-" + op.get("via", "?"), None)
+            yield ("init-on-live-store" if prev else "init-on-empty-store", None)
+            running = [i for i in ids if i in prev and prev[i]["started"] and prev[i]["cur"] >= 1]
+            if running:
+                yield ("init-names-a-running-epoch", None)
+            if any(i in prev for i in ids) and any(i and i not in prev for i in ids):
+                yield ("init-mixes-stored-and-new-identifiers", None)
+            if len(set(ids)) < len(ids):
+                yield ("init-duplicate-identifier-in-genesis", None)
+            if not gen:
+                yield ("init-empty-genesis", None)
+            now = {e["ident"] for e in o["infos"] or []}
+            added = len(now) - len(prev)
+            if added and added < len(gen):
+                yield ("init-partly-applied", None)
+            if added == len(gen) and gen:
+                yield ("init-fully-applied", None)
+            if not added and gen:
+                yield ("init-nothing-applied", None)
         else:
             if not o["ok"]:
                 yield ("block-aborted-by-panicking-hook", None)
@@ -180,6 +226,17 @@ def nontrivial(rec):
     return idle and any(v >= 1 for v in later.values())
 
 
+def _reinit_nontrivial(rec):
+    """a module re-initialisation that names a running epoch, followed by a later tick of some identifier"""
+    seen = False
+    for k, _ in _walk(rec):
+        if k == "init-names-a-running-epoch":
+            seen = True
+        if seen and k == "later-tick":
+            return True
+    return False
+
+
 def classify(rec):
     idents = [op.get("ident", "") for op in (rec["input"].get("genesis") or []) + rec["input"]["ops"] if op["op"] == "add"]
     extra = []
@@ -200,6 +257,8 @@ def classify(rec):
     seen = set()
     for k, _ in _walk(rec):
         seen.add(k)
+    if _reinit_nontrivial(rec):
+        seen.add("reinit-of-running-epoch-then-tick")
     return ks + sorted(seen)
 
 
@@ -220,6 +279,12 @@ def shrink_candidates(inp):
     gen = inp.get("genesis") or []
     for i in range(len(gen)):
         out.append(dict(inp, genesis=gen[:i] + gen[i + 1:]))
+    for j, op in enumerate(ops):
+        g = op.get("gen") or []
+        for i in range(len(g)):
+            out.append(dict(inp, ops=ops[:j] + [dict(op, gen=g[:i] + g[i + 1:])] + ops[j + 1:]))
+    if inp.get("fail"):
+        out.append(dict(inp, fail=None))
     if inp["mode"] == "abci":
         pass
     return out
@@ -240,7 +305,17 @@ MANIFEST = {
                  "counters is necessary; with a failing hook receiver (C14_hook_panic_aborts_block, C14_committed_block_is_complete, "
                  "C14_every_block_of_every_history_with_failing_hook): a panicking hook commits nothing and every committed advance "
                  "delivered AfterEpochEnd(n) once to ALL receivers before BeforeEpochStart(n+1); C14_one_info_per_identifier: identifiers are "
-                 "arbitrary strings, no identifier is stored twice and no block creates or loses an info. The model is run against the real BeginBlocker (direct and through the whole "
+                 "arbitrary strings, no identifier is stored twice and no block creates or loses an info. "
+                 "Histories contain MODULE (RE-)INITIALISATION steps (op Init: InitGenesis with any genesis state — default, "
+                 "duplicated / invalid / already stored identifiers — at any point, through the function or through "
+                 "AppModule.InitGenesis which discards the error): every theorem above is proved over such histories, every op "
+                 "that is not a block keeps every stored info unchanged and calls no hook (P_keep, part of P_trace and of the "
+                 "checker), C14_init_keeps_every_stored_info / _init_on_initialised_store_is_identity / "
+                 "_init_invalid_genesis_writes_nothing; the variant in which InitGenesis writes directly (run_v false) is refuted: "
+                 "C14_monotone_refuted_for_unguarded_init, C14_hooks_once_refuted_for_unguarded_init, "
+                 "C14_init_keep_refuted_for_unguarded_init; generated facts: InitGenesis reaches the keeper only through "
+                 "AddEpochInfo, AddEpochInfo refuses a stored identifier before writing, AppModule.InitGenesis discards the "
+                 "error. The model is run against the real BeginBlocker (direct and through the whole "
                  "application BeginBlock) with recording hooks on generated time sequences, and the proved-sound checker of the "
                  "per-block property is evaluated on the implementation traces; hook registration in app/ is re-extracted on "
                  "every run (Gen/C14Facts.v) together with the absence of recover in x/epochs and the shape of the MultiEpochHooks "
@@ -254,5 +329,6 @@ MANIFEST = {
                    "kernel + vm_compute, the driver's two recording hooks, trace->Coq rendering (identifier ranks), the go/ast "
                    "extractor harness/gen/c14."),
     "technique": "Coq proof (induction over op histories, per-identifier projection of the hook trace) + differential "
-                 "correspondence on BeginBlocker traces with recording hooks + generated hook-registration facts",
+                 "correspondence on BeginBlocker / AddEpochInfo / InitGenesis (function, module, RunMigrations) traces with "
+                 "recording hooks + generated hook-registration, store-key and initialisation-path facts",
 }
